@@ -7,6 +7,8 @@ git -C /repo apply /verif/seeded/$id/patch.diff || { echo "patch does not apply"
 VERIF_SEED=${VERIF_SEED:-1} ./check $pid $tier > work/mut-$id-$pid-$tier.out 2>&1
 rc=$?
 git -C /repo checkout -- .
+# the evidence written by a run against a changed tree must never be committed
+git -C /verif checkout -- evidence/ 2>/dev/null
 echo "mutation $id check $pid $tier exit=$rc"
 grep -E "^(VIOLATION|KNOWN-FINDING|OK|CONFORMANCE|  formula)" work/mut-$id-$pid-$tier.out | cut -c1-300
 exit 0
